@@ -7,7 +7,7 @@ representation invariant `Rep` (the model's token is the join of the pieces, no 
 appends is a non-empty slice of the formula).
 -/
 import NumbersModel.Gen.TrTok
-import NumbersModel.Model.Tokenizer
+import NumbersModel.Lemmas.Tokenizer
 
 namespace NumbersModel.Translated
 open NumbersModel NumbersModel.Gen.T NumbersModel.Tokenizer
@@ -52,5 +52,525 @@ theorem save_token_eq_model (pieces : List Text) (st : St) (h : Rep pieces st) :
     refine ⟨[], ?_, ?_⟩
     · simp only [he', Bool.not_false, if_true, bind, Except.bind, pure, Except.pure, PyT.joinEmpty, h.1]
     · simp [Rep]
+
+/-! ## The rest of the tokenizer
+
+Every other method of `Tokenizer` (and the `Token` constructors they call) as regenerated from the source, against the
+model's step functions.  The source works on `self.formula` / `self.offset`, the model on `rest = formula[offset:]`: the
+simulation relation is `Pos` (position) together with `Rep` (pending token) and equality of `items` / `token_stack`.  Each
+`<method>_refines_model` says: from related states the translated method raises the exception the model's function raises,
+or returns the model's new items and stack, pieces that represent the model's pending token, and a character count that
+moves the offset to the model's new `rest` (`Refines`). -/
+
+/-- the source's `self.formula` / `self.offset` against the model's `St.rest` (`formula[offset:]`; the offset can be one past
+    the end after the one-character `≥` quirk of `parse_operator`) -/
+def Pos (formula : Text) (offset : Int) (st : St) : Prop := 0 ≤ offset ∧ st.rest = formula.drop offset.toNat
+
+theorem index_cons {f : Text} {o : Int} {c : Char} {r : Text} (h0 : 0 ≤ o) (h : f.drop o.toNat = c :: r) :
+    pyIndex (PyT.strIter f) o = .ok [c] := by
+  have hlt : o.toNat < f.length := by
+    rcases Nat.lt_or_ge o.toNat f.length with hlt | hge
+    · exact hlt
+    · rw [List.drop_of_length_le hge] at h
+      cases h
+  have hget : f[o.toNat]? = some c := by
+    rw [← List.head?_drop, h]; rfl
+  unfold pyIndex PyT.strIter
+  simp only [List.length_map]
+  have h1 : ¬ o < 0 := by omega
+  have h2 : ¬ (o ≥ (f.length : Int)) := by omega
+  simp only [h1, if_false, false_or, h2, List.getElem?_map, hget, Option.map_some]
+
+theorem index_nil {f : Text} {o : Int} (h0 : 0 ≤ o) (h : f.drop o.toNat = []) :
+    pyIndex (PyT.strIter f) o = .error .IndexError := by
+  have hge : f.length ≤ o.toNat := by
+    have : (f.drop o.toNat).length = f.length - o.toNat := List.length_drop
+    rw [h] at this; simp at this; omega
+  unfold pyIndex PyT.strIter
+  simp only [List.length_map]
+  have h1 : ¬ o < 0 := by omega
+  have h2 : (o ≥ (f.length : Int)) := by omega
+  simp only [h1, if_false, false_or, h2, if_true]
+
+theorem slice_from {f : Text} {o : Int} (h0 : 0 ≤ o) : pySlice f (some o) none = f.drop o.toNat := by
+  unfold pySlice pyClamp
+  have h1 : ¬ o < 0 := by omega
+  simp only [h1, if_false]
+  by_cases hgt : o > (f.length : Int)
+  · simp only [hgt, if_true]
+    rw [List.drop_of_length_le (by omega : f.length ≤ o.toNat), List.drop_of_length_le (Nat.le_refl _)]; simp
+  · simp only [hgt, if_false]
+    rw [List.take_of_length_le]; simp
+
+theorem slice_two {f : Text} {o : Int} (h0 : 0 ≤ o) :
+    pySlice f (some o) (some (o + 2)) = (f.drop o.toNat).take 2 := by
+  unfold pySlice pyClamp
+  have h1 : ¬ o < 0 := by omega
+  have h2 : ¬ o + 2 < 0 := by omega
+  simp only [h1, h2, if_false]
+  by_cases hgt : o > (f.length : Int)
+  · have hgt2 : o + 2 > (f.length : Int) := by omega
+    simp only [hgt, hgt2, if_true]
+    rw [List.drop_of_length_le (by omega : f.length ≤ o.toNat), List.drop_of_length_le (Nat.le_refl _)]; simp
+  · simp only [hgt, if_false]
+    by_cases hgt2 : o + 2 > (f.length : Int)
+    · simp only [hgt2, if_true]
+      rw [List.take_of_length_le (by simp), List.take_of_length_le (by simp; omega)]
+    · simp only [hgt2, if_false]
+      have : (o + 2).toNat - o.toNat = 2 := by omega
+      rw [this]
+
+
+theorem pos_advance {f : Text} {o : Int} {st st' : St} (hp : Pos f o st) (n : Nat) (h : st'.rest = st.rest.drop n) :
+    Pos f (o + (n : Int)) st' := by
+  obtain ⟨h0, hr⟩ := hp
+  refine ⟨by omega, ?_⟩
+  rw [h, hr, List.drop_drop]
+  congr 1; omega
+
+theorem strIn_single (c : Char) (s : Text) : PyT.strIn [c] s = s.contains c := by
+  induction s with
+  | nil => rfl
+  | cons d s ih =>
+    simp only [PyT.strIn, ih, List.isPrefixOf, List.contains_cons, Bool.and_true]
+
+theorem index_last {α} {l : List α} {x : α} (h : l.getLast? = some x) : pyIndex l (-1) = .ok x := by
+  have hne : l ≠ [] := by intro hn; rw [hn] at h; cases h
+  have hpos : 0 < l.length := List.length_pos_iff.mpr hne
+  unfold pyIndex
+  have h1 : ((-1 : Int) < 0) := by omega
+  have h2 : ¬ ((-1 : Int) + (l.length : Int) < 0) := by omega
+  have h3 : ¬ ((-1 : Int) + (l.length : Int) ≥ (l.length : Int)) := by omega
+  have h4 : ((-1 : Int) + (l.length : Int)).toNat = l.length - 1 := by omega
+  simp only [h1, if_true, h2, h3, or_self, if_false, h4]
+  rw [List.getLast?_eq_getElem?] at h
+  rw [h]
+
+/-- the outcome of a translated `parse_*` method (normalised to `(count, items, token_stack, pieces)`) against the model's:
+    the same exception, or the same items and stack, pieces that represent the model's pending token, and a count that
+    moves the offset to the model's `rest` -/
+def Refines (f : Text) (o : Int) (res : PyM (Int × List Tok × List Tok × List Text)) (m : PyM St) : Prop :=
+  match m with
+  | .error e => res = .error e
+  | .ok st' => ∃ n pieces', res = .ok (n, st'.items, st'.stack, pieces') ∧ Pos f (o + n) st' ∧ Rep pieces' st'
+
+theorem twoCharOps_lit : [(['>', '='] : Text), (['<', '='] : Text), (['<', '>'] : Text), ([(Char.ofNat 8805)] : Text),
+    ([(Char.ofNat 8804)] : Text), ([(Char.ofNat 8800)] : Text)] = twoCharOps := by decide
+
+theorem infixChars_lit : (['*', '/', '^', '&', '=', '>', '<', (Char.ofNat 215), (Char.ofNat 247), (Char.ofNat 8805),
+    (Char.ofNat 8804), (Char.ofNat 8800)] : Text) = "*/^&=><×÷≥≤≠".toList := by decide
+
+theorem refines_ok {f : Text} {o : Int} {res : PyM (Int × List Tok × List Tok × List Text)} {st' : St} (n : Int)
+    (pieces' : List Text) (h : res = .ok (n, st'.items, st'.stack, pieces')) (hp : Pos f (o + n) st')
+    (hr : Rep pieces' st') : Refines f o res (.ok st') := ⟨n, pieces', h, hp, hr⟩
+
+theorem refines_err {f : Text} {o : Int} {res : PyM (Int × List Tok × List Tok × List Text)} {e : PyExc}
+    (h : res = .error e) : Refines f o res (.error e) := h
+
+theorem parse_operator_refines_model {f : Text} {o : Int} {st : St} {pieces : List Text} (hp : Pos f o st)
+    (hr : Rep pieces st) :
+    Refines f o ((parse_operator f o st.items).map (fun r => (r.1, r.2, st.stack, pieces))) (parseOperator st) := by
+  obtain ⟨h0, hrest⟩ := hp
+  unfold parse_operator parseOperator
+  simp only [slice_two h0, ← hrest, twoCharOps_lit]
+  by_cases h2 : twoCharOps.contains (st.rest.take 2) = true
+  · simp only [h2, if_true]
+    exact refines_ok 2 pieces rfl (pos_advance ⟨h0, hrest⟩ 2 rfl) hr
+  · simp only [h2, Bool.false_eq_true, if_false]
+    cases hrs : st.rest with
+    | nil =>
+      simp only [index_nil h0 (hrest ▸ hrs)]
+      exact refines_err rfl
+    | cons c r =>
+      simp only [index_cons h0 (hrest ▸ hrs)]
+      refine refines_ok 1 pieces ?_ (pos_advance ⟨h0, hrest⟩ 1 (by simp [hrs])) hr
+      simp only [bind, Except.bind, pure, Except.pure, Except.map, strIn_single, infixChars_lit]
+      generalize "*/^&=><×÷≥≤≠".toList.contains c = isIn
+      by_cases hc : c = '%'
+      · simp [hc]
+      · cases isIn with
+        | true => simp [hc]
+        | false =>
+          cases hl : st.items.getLast? with
+          | none =>
+            have : st.items = [] := List.getLast?_eq_none_iff.mp hl
+            simp [hc, this]
+          | some prev =>
+            have hne : st.items ≠ [] := by intro hn; rw [hn] at hl; cases hl
+            simp only [index_last hl]
+            by_cases hin : prev.subtype = SubT.CLOSE ∨ prev.type = TType.OP_POST ∨ prev.type = TType.OPERAND
+            · simp [hin, hc, hne]
+            · simp [hin, hc, hne]
+
+theorem rep_pieces_ne {pieces : List Text} {st : St} (h : Rep pieces st) : pieces ≠ [] ↔ st.token ≠ [] := by
+  have := rep_empty_iff pieces st h
+  constructor
+  · intro hp ht; apply hp; exact List.isEmpty_iff.mp (this.mpr ht)
+  · intro ht hp; apply ht; exact this.mp (List.isEmpty_iff.mpr hp)
+
+theorem rep_append {pieces : List Text} {st st' : St} (h : Rep pieces st) (p : Text) (hp : p ≠ [])
+    (ht : st'.token = st.token ++ p) : Rep (pieces ++ [p]) st' := by
+  obtain ⟨h1, h2⟩ := h
+  refine ⟨by simp [ht, h1], ?_⟩
+  intro q hq
+  rcases List.mem_append.mp hq with hq | hq
+  · exact h2 q hq
+  · simp at hq; subst hq; exact hp
+
+theorem rep_token_eq {pieces : List Text} {st st' : St} (h : Rep pieces st) (ht : st'.token = st.token) : Rep pieces st' := by
+  obtain ⟨h1, h2⟩ := h
+  exact ⟨by rw [ht, h1], h2⟩
+
+/-- `check_scientific_notation`: at `rest = c :: r` it consumes the sign exactly under the condition the model's `step` tests
+    (a pending token of the `1E` / `1.5E` shape), appending it to the pieces as the model appends it to the token. -/
+theorem check_scientific_notation_refines_model {f : Text} {o : Int} {st : St} {pieces : List Text} {c : Char} {r : Text}
+    (hp : Pos f o st) (hr : Rep pieces st) (hrs : st.rest = c :: r) :
+    check_scientific_notation f o pieces =
+      .ok (if (c = '+' ∨ c = '-') ∧ st.token.length ≥ 1 ∧ snMatch st.token = true
+        then (true, o + 1, pieces ++ [[c]]) else (false, o, pieces)) := by
+  obtain ⟨h0, hrest⟩ := hp
+  unfold check_scientific_notation
+  simp only [index_cons h0 (hrest ▸ hrs), bind, Except.bind, pure, Except.pure, strIn_single, PyT.joinEmpty, ← hr.1]
+  have hlen : decide ((pieces.length : Int) ≥ 1) = decide (st.token.length ≥ 1) := by
+    have := rep_pieces_ne hr
+    by_cases hpn : pieces = []
+    · have ht : st.token = [] := by
+        by_cases ht : st.token = []
+        · exact ht
+        · exact absurd hpn (this.mpr ht)
+      simp [hpn, ht]
+    · have ht := this.mp hpn
+      have h1 : 0 < pieces.length := List.length_pos_iff.mpr hpn
+      have h2 : 0 < st.token.length := List.length_pos_iff.mpr ht
+      simp only [ge_iff_le, decide_eq_decide]
+      omega
+  rw [hlen]
+  by_cases hc : c = '+' ∨ c = '-'
+  · have : ['+', '-'].contains c = true := by rcases hc with h | h <;> subst h <;> decide
+    by_cases hl : st.token.length ≥ 1 <;> by_cases hs : snMatch st.token = true <;> simp [hc, hl, hs]
+  · have : ['+', '-'].contains c = false := by
+      simp only [not_or] at hc
+      simp [hc.1, hc.2]
+    simp [hc]
+
+
+/-! ### the `Token` constructors on the arguments the tokenizer gives them -/
+
+theorem make_separator_semi : make_separator [';'] = .ok ⟨[';'], .SEP, .ROW⟩ := by decide
+theorem make_separator_comma : make_separator [','] = .ok ⟨[','], .SEP, .ARG⟩ := by decide
+theorem make_subexp_brace : make_subexp ['{'] false = .ok ⟨['{'], .ARRAY, .OPEN⟩ := by decide
+theorem make_subexp_paren : make_subexp ['('] false = .ok ⟨['('], .PAREN, .OPEN⟩ := by decide
+
+theorem index_last_nil {α} : pyIndex ([] : List α) (-1) = .error .IndexError := by
+  unfold pyIndex; simp
+
+/-- a function name followed by `(`: a FUNC / OPEN token, whatever the name is -/
+theorem make_subexp_func (t : Text) (ht : t ≠ []) : make_subexp (t ++ ['(']) false = .ok ⟨t ++ ['('], .FUNC, .OPEN⟩ := by
+  have hlast : (PyT.strIter (t ++ ['('])).getLast? = some ['('] := by
+    simp [PyT.strIter]
+  unfold make_subexp
+  simp only [index_last hlast, bind, Except.bind, pure, Except.pure]
+  have hno : ∀ a b : Char, b ≠ '(' → PyT.strIn (t ++ ['(']) [a, b] = false := by
+    intro a b hb
+    cases t with
+    | nil => exact absurd rfl ht
+    | cons p t' =>
+      cases t' with
+      | nil => simp [PyT.strIn, List.isPrefixOf]; intro _ h; exact absurd h.symm hb
+      | cons q t'' => simp [PyT.strIn, List.isPrefixOf]
+  simp [hno '{' '}' (by decide), hno '(' ')' (by decide), hno ')' '}' (by decide)]
+
+/-- `get_closer` of a token `parse_opener` stacked is the model's `getCloser` -/
+theorem get_closer_stacked (t : Tok) (h : (t.type = .FUNC ∨ t.type = .ARRAY ∨ t.type = .PAREN) ∧ t.subtype = .OPEN) :
+    get_closer t = .ok (getCloser t) := by
+  obtain ⟨v, ty, sub⟩ := t
+  obtain ⟨hty, hsub⟩ := h
+  simp only at hty hsub
+  subst hsub
+  rcases hty with h | h | h <;> subst h <;> rfl
+
+
+/-- what `parse_opener` stacks: the invariant `get_closer` relies on -/
+def StackOK (st : St) : Prop :=
+  ∀ t ∈ st.stack, (t.type = .FUNC ∨ t.type = .ARRAY ∨ t.type = .PAREN) ∧ t.subtype = .OPEN
+
+theorem parse_separator_refines_model {f : Text} {o : Int} {st : St} {pieces : List Text} {c : Char} {r : Text}
+    (hp : Pos f o st) (hr : Rep pieces st) (hrs : st.rest = c :: r) :
+    Refines f o ((parse_separator f o st.items st.stack).map (fun r => (r.1, r.2, st.stack, pieces))) (parseSeparator st) := by
+  obtain ⟨h0, hrest⟩ := hp
+  have hadv : ∀ st' : St, st'.rest = r → Pos f (o + 1) st' :=
+    fun st' h => pos_advance ⟨h0, hrest⟩ 1 (by simp [hrs, h])
+  unfold parse_separator parseSeparator
+  simp only [index_cons h0 (hrest ▸ hrs), bind, Except.bind, pure, Except.pure, hrs]
+  by_cases h1 : c = ';'
+  · subst h1
+    exact refines_ok 1 pieces (by simp [make_separator_semi, Except.map]) (hadv _ rfl) (rep_token_eq hr rfl)
+  · by_cases h2 : c = ','
+    · subst h2
+      cases hl : st.stack.getLast? with
+      | none =>
+        have hs : st.stack = [] := List.getLast?_eq_none_iff.mp hl
+        refine refines_ok 1 pieces ?_ (hadv _ rfl) (rep_token_eq hr rfl)
+        simp [hs, index_last_nil, Except.map]
+      | some top =>
+        refine refines_ok 1 pieces ?_ (hadv _ rfl) (rep_token_eq hr rfl)
+        by_cases ht : top.type = TType.PAREN
+        · simp [index_last hl, ht, Except.map]
+        · simp [index_last hl, ht, Except.map, make_separator_comma]
+    · have : (List.contains [([';'] : Text), [',']] [c]) = false := by simp [h1, h2]
+      simp only [this, Bool.not_false, if_true]
+      split
+      · rename_i heq; injection heq with heq; exact absurd heq h1
+      · rename_i heq; injection heq with heq; exact absurd heq h2
+      · exact refines_err rfl
+
+theorem parse_opener_refines_model {f : Text} {o : Int} {st : St} {pieces : List Text} {c : Char} {r : Text}
+    (hp : Pos f o st) (hr : Rep pieces st) (hrs : st.rest = c :: r) :
+    Refines f o (parse_opener f o st.items st.stack pieces) (parseOpener st) := by
+  obtain ⟨h0, hrest⟩ := hp
+  have hadv : ∀ st' : St, st'.rest = r → Pos f (o + 1) st' :=
+    fun st' h => pos_advance ⟨h0, hrest⟩ 1 (by simp [hrs, h])
+  unfold parse_opener parseOpener
+  simp only [index_cons h0 (hrest ▸ hrs), bind, Except.bind, pure, Except.pure, hrs]
+  by_cases h1 : c = '{'
+  · subst h1
+    rw [assert_empty_token_eq_model pieces st hr]
+    rcases assertEmpty_cases st with ha | ha
+    · simp only [ha]
+      exact refines_ok 1 pieces (by simp [make_subexp_brace]) (hadv _ rfl) (rep_token_eq hr rfl)
+    · simp only [ha]
+      exact refines_err (by simp)
+  · by_cases h2 : c = '('
+    · subst h2
+      by_cases ht : st.token = []
+      · have hpn : pieces = [] := by
+          by_cases hpn : pieces = []
+          · exact hpn
+          · exact absurd ht ((rep_pieces_ne hr).mp hpn)
+        exact refines_ok 1 [] (by simp [ht, hpn, make_subexp_paren]) (hadv _ rfl) ⟨by simp, by simp⟩
+      · have hpn : pieces ≠ [] := (rep_pieces_ne hr).mpr ht
+        refine refines_ok 1 [] ?_ (hadv _ rfl) ⟨by simp, by simp⟩
+        simp [ht, hpn, PyT.joinEmpty, ← hr.1, make_subexp_func st.token ht]
+    · have : (List.contains [(['('] : Text), ['{']] [c]) = false := by simp [h1, h2]
+      simp only [this, Bool.not_false, if_true]
+      split
+      · rename_i heq; injection heq with heq; exact absurd heq h1
+      · rename_i heq; injection heq with heq; exact absurd heq h2
+      · exact refines_err rfl
+
+
+theorem parse_closer_refines_model {f : Text} {o : Int} {st : St} {pieces : List Text} {c : Char} {r : Text}
+    (hp : Pos f o st) (hr : Rep pieces st) (hs : StackOK st) (hrs : st.rest = c :: r) :
+    Refines f o ((parse_closer f o st.items st.stack).map (fun r => (r.1, r.2.1, r.2.2, pieces)))
+      (parseCloser .TokenizerError st) := by
+  obtain ⟨h0, hrest⟩ := hp
+  have hadv : ∀ st' : St, st'.rest = r → Pos f (o + 1) st' :=
+    fun st' h => pos_advance ⟨h0, hrest⟩ 1 (by simp [hrs, h])
+  unfold parse_closer parseCloser
+  simp only [index_cons h0 (hrest ▸ hrs), bind, Except.bind, pure, Except.pure, hrs]
+  by_cases hc : c ≠ ')' ∧ c ≠ '}'
+  · have : (List.contains [([')'] : Text), ['}']] [c]) = false := by simp [hc.1, hc.2]
+    simp only [this, Bool.not_false, if_true]
+    rw [if_pos hc]
+    exact refines_err rfl
+  · have : (List.contains [([')'] : Text), ['}']] [c]) = true := by
+      by_cases h1 : c = ')'
+      · simp [h1]
+      · by_cases h2 : c = '}'
+        · simp [h2]
+        · exact absurd ⟨h1, h2⟩ hc
+    simp only [this, Bool.not_true, Bool.false_eq_true, if_false, hc]
+    cases hrev : st.stack.reverse with
+    | nil =>
+      have hs0 : st.stack = [] := by simpa using hrev
+      simp only [hs0, List.isEmpty_nil, Bool.not_true, Bool.not_false, if_true]
+      exact refines_err rfl
+    | cons top below =>
+      have hne : st.stack ≠ [] := by intro h; rw [h] at hrev; cases hrev
+      have hmem : top ∈ st.stack := by
+        have : top ∈ st.stack.reverse := by rw [hrev]; exact List.mem_cons_self ..
+        exact List.mem_reverse.mp this
+      have hpop : pyPop st.stack = .ok (top, below.reverse) := by unfold pyPop; rw [hrev]
+      have hemp : st.stack.isEmpty = false := by simpa using hne
+      simp only [hemp, Bool.not_false, Bool.not_true, Bool.false_eq_true, if_false, hpop, get_closer_stacked top (hs top hmem)]
+      by_cases hv : (getCloser top).value ≠ [c]
+      · simp only [hv, decide_true, if_true, ne_eq, not_false_eq_true]
+        exact refines_err rfl
+      · simp only [hv, decide_false, Bool.false_eq_true, if_false]
+        exact refines_ok 1 pieces rfl (hadv _ rfl) (rep_token_eq hr rfl)
+
+
+theorem parse_error_for1 (sub : Text) (codes : List Text) (items : List Tok) :
+    parse_error.for1 sub codes items = .ok (match codes.find? (fun e => e.isPrefixOf sub) with
+      | some e => (some ((e.length : Int), items ++ [makeOperand e]), items ++ [makeOperand e])
+      | none => (none, items)) := by
+  induction codes with
+  | nil => rfl
+  | cons e rest ih =>
+    unfold parse_error.for1
+    by_cases h : e.isPrefixOf sub = true
+    · simp [PyT.startswith, h, pure, Except.pure]
+    · simp [PyT.startswith, h, ih]
+
+theorem parse_error_refines_model {f : Text} {o : Int} {st : St} {pieces : List Text} {r : Text}
+    (hp : Pos f o st) (hr : Rep pieces st) (hrs : st.rest = '#' :: r) :
+    Refines f o ((parse_error f o st.items pieces).map (fun r => (r.1, r.2, st.stack, pieces)))
+      (parseError Gen.ERROR_CODES st) := by
+  obtain ⟨h0, hrest⟩ := hp
+  unfold parse_error parseError
+  rw [assert_empty_token_eq_model pieces st hr]
+  rcases assertEmpty_cases st with ha | ha
+  · simp only [ha, index_cons h0 (hrest ▸ hrs), bind, Except.bind, pure, Except.pure, slice_from h0, ← hrest,
+      parse_error_for1]
+    cases hf : Gen.ERROR_CODES.find? (fun e => e.isPrefixOf st.rest) with
+    | none => exact refines_err rfl
+    | some e =>
+      refine refines_ok (e.length : Int) pieces (by simp [Except.map]) ?_ (rep_token_eq hr rfl)
+      exact pos_advance ⟨h0, hrest⟩ e.length rfl
+  · simp only [ha, bind, Except.bind]
+    exact refines_err rfl
+
+theorem endswith_colon (p : Text) : PyT.endswith p [':'] = decide (p.getLast? = some ':') := by
+  unfold PyT.endswith
+  rcases List.eq_nil_or_concat p with h | ⟨q, x, h⟩
+  · subst h; rfl
+  · subst h
+    simp [List.isSuffixOf]
+    by_cases hx : x = ':'
+    · subst hx; simp [List.isPrefixOf]
+    · simp [List.isPrefixOf, hx]
+      exact fun h => hx h.symm
+
+theorem rep_last {pieces : List Text} {st : St} {p : Text} (h : Rep pieces st) (hl : pieces.getLast? = some p) :
+    PyT.endswith p [':'] = decide (st.token.getLast? = some ':') := by
+  obtain ⟨h1, h2⟩ := h
+  obtain ⟨init, hi⟩ := List.getLast?_eq_some_iff.mp hl
+  have hp : p ≠ [] := h2 p (by rw [hi]; simp)
+  rw [endswith_colon, h1, hi]
+  simp only [List.flatten_append, List.flatten_cons, List.flatten_nil, List.append_nil]
+  rw [List.getLast?_append]
+  cases hpl : p.getLast? with
+  | none => exact absurd (List.getLast?_eq_none_iff.mp hpl) hp
+  | some x => simp
+
+theorem drop_take_length {α} (l : List α) (n : Nat) : l.drop n = l.drop (l.take n).length := by
+  rw [List.length_take]
+  rcases Nat.le_total n l.length with h | h
+  · rw [Nat.min_eq_left h]
+  · rw [Nat.min_eq_right h, List.drop_of_length_le h, List.drop_of_length_le (Nat.le_refl _)]
+
+
+/-- the linked-quote test of `parse_string` (`delim == "'" and self.token and self.token[-1].endswith(":")`) is the model's
+    `linked`: the last piece ends in a colon exactly when the joined token does (no piece is empty) -/
+theorem linked_src {pieces : List Text} {st : St} {c : Char} {r : Text} (hr : Rep pieces st) (hrs : st.rest = c :: r) :
+    (if decide (([c] : Text) = ['\'']) = true then
+        (if (!pieces.isEmpty) = true then
+          (do let t2 ← pyIndex pieces (-1); pure (PyT.endswith t2 [':']) : PyM Bool)
+        else pure false)
+      else pure false) = .ok (linked st) := by
+  unfold linked
+  by_cases hc : c = '\''
+  · subst hc
+    simp only [hrs, decide_true, if_true]
+    cases hl : pieces.getLast? with
+    | none =>
+      have hpn : pieces = [] := List.getLast?_eq_none_iff.mp hl
+      have ht : st.token = [] := by rw [hr.1, hpn]; rfl
+      simp [hpn, ht, pure, Except.pure]
+    | some p =>
+      have hpn : pieces ≠ [] := by intro h; rw [h] at hl; cases hl
+      have : pieces.isEmpty = false := by simpa using hpn
+      simp only [this, Bool.not_false, if_true, index_last hl, bind, Except.bind, pure, Except.pure, rep_last hr hl]
+  · have : decide (([c] : Text) = ['\'']) = false := by simp [hc]
+    simp only [this, Bool.false_eq_true, if_false, hrs, pure, Except.pure]
+    split
+    · rename_i heq; injection heq with heq; exact absurd heq hc
+    · rfl
+
+/-- what `parseString` does with the scanner's answer -/
+def strTail (st : St) (m : Option Nat) : PyM St :=
+  match m with
+  | none => .error .TokenizerError
+  | some n =>
+    if st.token ≠ [] then .ok { st with token := st.token ++ st.rest.take n, rest := st.rest.drop n }
+    else .ok { st with items := st.items ++ [makeOperand (st.rest.take n)], rest := st.rest.drop n }
+
+theorem parseString_eq {ws : List Nat} {st : St} {c : Char} {r : Text} (hrs : st.rest = c :: r) (hq : c = '"' ∨ c = '\'') :
+    parseString ws st = (do quoteGuard st; strTail st (if c = '"' then dqMatch st.rest else sqMatch ws st.rest)) := by
+  unfold parseString strTail
+  rcases hq with h | h
+  · subst h
+    cases hg : quoteGuard st
+    · rfl
+    · simp only [bind, Except.bind, hrs, if_true]
+      cases dqMatch ('"' :: r) <;> rfl
+  · subst h
+    cases hg : quoteGuard st
+    · rfl
+    · simp only [bind, Except.bind, hrs]
+      have : ¬ ('\'' = '"') := by decide
+      simp only [this, if_false]
+      cases sqMatch ws ('\'' :: r) <;> rfl
+
+theorem parse_string_refines_model {f : Text} {o : Int} {st : St} {pieces : List Text} {c : Char} {r : Text}
+    (hp : Pos f o st) (hr : Rep pieces st) (hrs : st.rest = c :: r) (hq : c = '"' ∨ c = '\'') :
+    Refines f o ((parse_string f o st.items pieces).map (fun r => (r.1, r.2.1, st.stack, r.2.2)))
+      (parseString Gen.whitespace st) := by
+  obtain ⟨h0, hrest⟩ := hp
+  rw [parseString_eq hrs hq]
+  unfold parse_string
+  simp only [index_cons h0 (hrest ▸ hrs), bind, Except.bind, pure, Except.pure] 
+  have hl := linked_src hr hrs
+  simp only [bind, Except.bind, pure, Except.pure] at hl
+  rw [hl]
+  simp only [slice_from h0, ← hrest, assert_empty_token_eq_model pieces st hr]
+  have hguard : (if (!linked st) = true then
+      (do let _ ← assertEmpty st; pure () : PyM Unit) else pure ()) = quoteGuard st := by
+    unfold quoteGuard
+    cases linked st <;> simp <;> cases assertEmpty st <;> rfl
+  simp only [bind, Except.bind, pure, Except.pure] at hguard
+  rw [hguard]
+  rcases guard_cases st with hg | hg
+  · simp only [hg]
+    have hpe : pieces.isEmpty = decide (st.token = []) := by
+      by_cases ht : st.token = []
+      · have : pieces = [] := by
+          by_cases hpn : pieces = []
+          · exact hpn
+          · exact absurd ht ((rep_pieces_ne hr).mp hpn)
+        simp [ht, this]
+      · have hpn := (rep_pieces_ne hr).mpr ht
+        simp [ht, hpn]
+    -- the scanner the key selects is the one the model selects by the first character
+    have hscan : ∃ scan : Text → Option Nat,
+        stringRegexes Gen.whitespace [c] = .ok (reMatch0 scan) ∧
+        (if c = '"' then dqMatch st.rest else sqMatch Gen.whitespace st.rest) = scan st.rest ∧
+        (∀ n, scan st.rest = some n → 1 ≤ n) := by
+      rcases hq with h | h
+      · subst h
+        exact ⟨dqMatch, by simp [stringRegexes], by simp, fun n h => dqMatch_pos h⟩
+      · subst h
+        exact ⟨sqMatch Gen.whitespace, by simp [stringRegexes], by simp, fun n h => sqMatch_pos h⟩
+    obtain ⟨scan, hsr, hsel, hpos⟩ := hscan
+    rw [hsr, hsel]
+    simp only [reMatch0]
+    cases hm : scan st.rest with
+    | none => exact refines_err rfl
+    | some n =>
+      have hn := hpos n hm
+      have htk : st.rest.take n ≠ [] := by
+        rw [hrs]; cases n with
+        | zero => omega
+        | succ k => simp
+      simp only [Option.map_some, hpe, strTail]
+      by_cases ht : st.token = []
+      · simp only [ht, decide_true, Bool.not_true, Bool.false_eq_true, if_false, ne_eq, not_true_eq_false]
+        refine refines_ok ((st.rest.take n).length : Int) pieces rfl ?_ (rep_token_eq hr (by simp [ht]))
+        exact pos_advance ⟨h0, hrest⟩ _ (drop_take_length st.rest n)
+      · simp only [ht, decide_false, Bool.not_false, if_true, ne_eq, not_false_eq_true]
+        refine refines_ok ((st.rest.take n).length : Int) (pieces ++ [st.rest.take n]) rfl ?_ (rep_append hr _ htk rfl)
+        exact pos_advance ⟨h0, hrest⟩ _ (drop_take_length st.rest n)
+  · simp only [hg]
+    exact refines_err rfl
 
 end NumbersModel.Translated
